@@ -1090,6 +1090,11 @@ def replay(ctx, data):
         return False
     c, impl, model, spec = eval_cases([case])[0]
     print('path    :', c['path'])
+    if c['path'] in ('plug', 'plugcmd', 'conv', 'tlayers'):
+        print('input   :', json.dumps({k: v for k, v in c.items() if k not in BLANK_KEYS or k == 'argv'}))
+        print('model   :', json.dumps({k: v for k, v in model.items() if k != '_aux'}))
+    if c.get('klayers'):
+        print('layers  : option probe, present: %s; model: %s' % (optcfglib.present_of(c), json.dumps((model.get('_aux') or {}).get('winner'))))
     print('options :', json.dumps(c['spec'][c['n_base']:]))
     print('env     :', c['env'], ' config section:', c['ini'], ' GLOBAL:', c['glob'], ' DOIT_CONFIG:', c['dodo'])
     if c.get('api'):
